@@ -591,6 +591,19 @@ func (vc *VC) havocModifies(st *State, env *Env, callee *ssa.Function, m string)
 					}
 					return
 				}
+				if f == "*" {
+					// pointer to a non-struct value (e.g. *[]T): the whole pointee
+					for _, lf := range leavesOf(t) {
+						if lf.bad {
+							continue
+						}
+						hn := fieldHeap(t, lf.path)
+						hs := arraySort(sortRef, lf.sort)
+						h := vc.heapGet(st, hn, hs)
+						vc.heapSet(st, hn, hs, vc.sc.define("h", hs, store(h, v.L.Ref, vc.sc.fresh("mod", lf.sort))))
+					}
+					return
+				}
 			}
 		}
 	}
